@@ -46,16 +46,17 @@ type Commit struct {
 }
 
 type Net struct {
-	N       int
-	Keys    []*sim.Key
-	VS      lib.ValidatorSet
-	Reps    []*Rep
-	Bag     []*Env
-	seq     int
-	mu      sync.Mutex
-	Commits []Commit
-	Trace   []string
-	Verbose bool
+	N        int
+	Keys     []*sim.Key
+	VS       lib.ValidatorSet
+	Reps     []*Rep
+	Bag      []*Env
+	seq      int
+	mu       sync.Mutex
+	Commits  []Commit
+	Trace    []string
+	Verbose  bool
+	Rewrite  func(e *Env) // the adversary may rewrite the unsigned parts of a message in flight to a Byzantine validator
 	blockCtr int
 }
 
@@ -69,12 +70,13 @@ type Rep struct {
 
 // Ctl is the mock controller of one replica
 type Ctl struct {
-	net        *Net
-	rep        *Rep
-	mu         sync.Mutex
-	rootHeight uint64
-	syncing    atomic.Bool
+	net             *Net
+	rep             *Rep
+	mu              sync.Mutex
+	rootHeight      uint64
+	syncing         atomic.Bool
 	lastRootUpdated uint64
+	Sent            []*bft.Message // every message this replica signed and sent since the harness last cleared it
 }
 
 func (n *Net) logf(f string, a ...any) {
@@ -136,6 +138,12 @@ func (c *Ctl) Lock()                   { c.mu.Lock() }
 func (c *Ctl) Unlock()                 { c.mu.Unlock() }
 func (c *Ctl) ChainHeight() uint64     { return Height }
 func (c *Ctl) RootChainHeight() uint64 { return c.rootHeight }
+func (c *Ctl) RootHeightNow() uint64   { return c.rootHeight }
+func (c *Ctl) SetRoot(h uint64) {
+	if h > c.rootHeight {
+		c.rootHeight = h
+	}
+}
 
 // MakeProposal builds a distinct valid block and certificate results
 func (n *Net) MakeProposal(proposer int, tag uint64) ([]byte, *lib.CertificateResult) {
@@ -247,6 +255,7 @@ func (c *Ctl) SendToReplicas(replicas lib.ValidatorSet, msg lib.Signable) {
 		panic(err)
 	}
 	m := msg.(*bft.Message)
+	c.Sent = append(c.Sent, m)
 	for _, v := range replicas.ValidatorSet.ValidatorSet {
 		if to := c.net.IndexOf(v.PublicKey); to >= 0 {
 			c.enqueue(to, m)
@@ -257,14 +266,15 @@ func (c *Ctl) SendToProposer(msg lib.Signable) {
 	if err := msg.Sign(c.net.Keys[c.rep.Idx].Priv); err != nil {
 		panic(err)
 	}
+	c.Sent = append(c.Sent, msg.(*bft.Message))
 	if to := c.net.IndexOf(c.rep.B.ProposerKey); to >= 0 {
 		c.enqueue(to, msg.(*bft.Message))
 	}
 }
-func (c *Ctl) LoadRootChainId(height uint64) uint64 { return RootChain }
-func (c *Ctl) LoadIsOwnRoot() bool                  { return false }
-func (c *Ctl) Syncing() *atomic.Bool                { return &c.syncing }
-func (c *Ctl) ResetFSM()                            {}
+func (c *Ctl) LoadRootChainId(height uint64) uint64                        { return RootChain }
+func (c *Ctl) LoadIsOwnRoot() bool                                         { return false }
+func (c *Ctl) Syncing() *atomic.Bool                                       { return &c.syncing }
+func (c *Ctl) ResetFSM()                                                   {}
 func (c *Ctl) SendCertificateResultsTx(certificate *lib.QuorumCertificate) {}
 func (c *Ctl) LoadCommittee(rootChainId, rootHeight uint64) (lib.ValidatorSet, lib.ErrorI) {
 	return c.net.VS, nil // committee-preserving root-chain updates: the same set at every root height
@@ -280,7 +290,7 @@ func (c *Ctl) LoadMinimumEvidenceHeight(rootChainId, rootHeight uint64) (*uint64
 	return &z, nil
 }
 func (c *Ctl) IsValidDoubleSigner(rootChainId, rootHeight uint64, address []byte) bool { return true }
-func (c *Ctl) LoadMaxBlockSize() int                                                    { return 1 << 20 }
+func (c *Ctl) LoadMaxBlockSize() int                                                   { return 1 << 20 }
 
 // ---------------------------------------------------------------- driving
 
@@ -315,7 +325,7 @@ func (n *Net) RootUpdate(i int, rootHeight uint64) {
 	if r.Committed != nil {
 		return
 	}
-	r.Ctl.rootHeight = rootHeight
+	r.Ctl.SetRoot(rootHeight)
 	r.Ctl.Lock()
 	r.B.NewHeight(true)
 	r.Ctl.Unlock()
@@ -340,6 +350,9 @@ func (n *Net) Flush(keep func(e *Env) bool) {
 	n.Bag = nil
 	for _, e := range bag {
 		if keep == nil || keep(e) {
+			if n.Rewrite != nil {
+				n.Rewrite(e)
+			}
 			if err := n.Deliver(e); err != nil && n.Verbose {
 				n.logf("    deliver %d->%d %s r%d: %s", e.From, e.To, e.Kind, e.Round, err.Error())
 			}
